@@ -1079,7 +1079,10 @@ func (m *Model) asBuiltEarly(s S, tl []string, hasEnum bool, v any, p Pos) (Verd
 	}
 	// null handed to the unmarshaler of a nullable object in a non-pointer position: the struct stays at its zero value and
 	// the validators of its required (non-pointer) members then judge 0 and ""
-	if m.dev("NULL_OBJECT_VALIDATES_ZERO") && v == nil && has(tl, "null") && !(p.Kind == "prop" && p.Optional) && !noMethodsStruct(p) {
+	_, objHasDefault := s["default"]
+	if m.dev("NULL_OBJECT_VALIDATES_ZERO") && v == nil && !noMethodsStruct(p) &&
+		((has(tl, "null") && !(p.Kind == "prop" && p.Optional)) || (p.Kind == "prop" && objHasDefault && len(nn) == 1 && nn[0] == "object")) {
+		// (a property with a default is a non-pointer field as well: null reaches the struct's unmarshaler before the default is applied)
 		if props, ok := s["properties"].(map[string]any); ok {
 			reqd := requiredSet(s)
 			for _, k := range jsonv.Keys(props) {
